@@ -122,4 +122,24 @@ theorem fromRotMat_toMat (hs : LawfulSqrt sq) (q : Quat K) (hq : UnitQ q) :
     · left; rw [abs_of_pos (by linarith)]
       congr 1 <;> (field_simp; ring)
 
+theorem isZero3_spec (a : MP3 K) (h : @MP3.isZero K (fieldNum K sq) a = true) :
+    massOf3 a = 0 ∧ a.com = ⟨0, 0, 0⟩ ∧ @MP3.reconstruct K (fieldNum K sq) a = ⟨⟨0, 0, 0⟩, ⟨0, 0, 0⟩, ⟨0, 0, 0⟩⟩ := by
+  rcases a with ⟨⟨cx, cy, cz⟩, im, ⟨ix, iy, iz⟩, ⟨fi, fj, fk, fw⟩⟩
+  simp only [MP3.isZero, fieldNum_neq', Bool.and_eq_true, Bool.or_eq_true, decide_eq_true_eq] at h
+  obtain ⟨⟨⟨⟨⟨⟨⟨h1, h2⟩, h3⟩, h4⟩, h5⟩, h6⟩, h7⟩, -⟩ := h
+  subst h1 h2 h3 h4 h5 h6 h7
+  refine ⟨by simp [massOf3], rfl, ?_⟩
+  simp [MP3.reconstruct, MP3.principalInertia, inv_spec, M3.mul, M3.diag]
+
+theorem madd_zero_left (m : K) (c : V3 K) (X : M3 K) :
+    madd (madd (⟨⟨0, 0, 0⟩, ⟨0, 0, 0⟩, ⟨0, 0, 0⟩⟩ : M3 K) (steiner3 0 c)) X = X := by
+  rcases X with ⟨⟨a00, a01, a02⟩, ⟨a10, a11, a12⟩, ⟨a20, a21, a22⟩⟩
+  simp [madd, steiner3]
+
+theorem madd_zero_right (c : V3 K) (X : M3 K) :
+    madd X (madd (⟨⟨0, 0, 0⟩, ⟨0, 0, 0⟩, ⟨0, 0, 0⟩⟩ : M3 K) (steiner3 0 c)) = X := by
+  rcases X with ⟨⟨a00, a01, a02⟩, ⟨a10, a11, a12⟩, ⟨a20, a21, a22⟩⟩
+  simp [madd, steiner3]
+
+
 end C13
